@@ -453,7 +453,7 @@ void execute(const Plan &plan, Ctx &ctx)
             obs = Observed();
             analyser->analyseModel(model);
             am = analyser->model();
-            checkLogger(ctx, analyser, "analyser", "analyseModel", am == nullptr || !am->isValid());
+            checkLogger(ctx, analyser, "analyser", "analyseModel", analysisFailed(am));
             ctx.count("analyses");
             ctx.count("analysis_cache_calls", obs.calls);
             if (am == nullptr) {
